@@ -1419,11 +1419,17 @@ def run_step(sess, cl, peer, step, prop):
                 elif is_honest and (got is not True or ids != matched):
                     fail("C17", "M2", "honest_proof_rejected_after_history", f"proof object whose fields are the honest proof again says {got} and yields {len(ids)} ids, expected the {len(matched)} matched ids")
                 elif got is True:
-                    if cur["hashes"] != honest["hashes"] and cur["total"] == total0 and cur["flags"] == honest["flags"] or cur["root"] != honest["root"]:
+                    same = {k: cur[k] == honest[k] for k in cur}
+                    # the statement's alterations are single ones: an altered hash under the genuine header, or an altered root over the
+                    # genuine proof. (A hash and the root altered consistently are an honest proof for another header: no verdict.)
+                    if (not same["hashes"] and same["root"] and same["total"] and same["flags"]) or (not same["root"] and same["hashes"] and same["total"] and same["flags"]):
                         fail("C17", "M1", "altered_proof_validates", "a proof with an altered hash or header root validates")
-                    for t in ids:
-                        if t not in b["txids"]:
-                            fail("C17", "M1", "proved_foreign_txid", f"validated proof yields {t.hex()} which is not a transaction of the block")
+                    if same["root"]:
+                        # the header is the block's: whatever validates against it yields transactions of the block only
+                        for t in ids:
+                            if t not in b["txids"]:
+                                interior = t[::-1] in interior_nodes([x[::-1] for x in b["txids"]])
+                                fail("C17", "M1", "proved_foreign_txid" + ("_interior_node" if interior else ""), f"validated proof (transaction count {cur['total']}, block has {nleaf}) yields {t.hex()} which is not a transaction of the block" + (" but an interior node of its merkle tree" if interior else ""))
             elif act == "revert":
                 if undo:
                     tr.fault("proof_edit_revert")
@@ -1464,6 +1470,18 @@ def run_step(sess, cl, peer, step, prop):
         tr.probe("getdata_count_class_" + ("ge_fd" if step["n"] >= 0xFD else "lt_fd"))
         return
     raise ValueError(op)
+
+
+def interior_nodes(leaves):
+    """All interior node hashes (every level above the leaves, the root included) of the consensus merkle tree over leaves (internal order)."""
+    out = set()
+    level = list(leaves)
+    while len(level) > 1:
+        if len(level) % 2:
+            level = level + [level[-1]]
+        level = [rp.sha256d(level[i] + level[i + 1]) for i in range(0, len(level), 2)]
+        out.update(level)
+    return out
 
 
 def final_checks(sess, peer, prop):
